@@ -17,6 +17,7 @@ import Driver.OpsRegistry
 import Driver.OpsLayout
 import Driver.OpsTyper
 import Driver.OpsEqual
+import Driver.OpsCodec
 open Lean Driver
 
 def dispatch (op : String) (j : Json) : R Json :=
@@ -39,6 +40,8 @@ def dispatch (op : String) (j : Json) : R Json :=
   | "cast" => opCast j
   | "typer" => opTyper j
   | "itemsEqual" => opItemsEqual j
+  | "jsonRoundTrip" => opJsonRoundTrip j
+  | "gobRoundTrip" => opGobRoundTrip j
   | _ => .error s!"unknown op {op}"
 
 partial def loop (h : IO.FS.Stream) (out : IO.FS.Stream) : IO Unit := do
